@@ -16,9 +16,9 @@ func init() {
 			Explanation: "Decides: C02.single (the commit callback is invoked, and NewBlockFromFrame called, only in ProcessDecidedRounds), C02.index (block index = Store.LastBlockIndex()+1; Store.SetBlock(block) precedes the callback; InmemStore.lastBlock only grows), " +
 				"C02.order (pending rounds iterated in the order of a list every writer of which sorts it ascending by Index with <; processing requires Decided and an undecided round leaves the loop), " +
 				"C02.once (after the callback for round r, every path to the next iteration or to a return appends r to the processed list, and the deferred Clean runs on every exit: a committed round is never processed again), " +
-				"C02.frozen (writers of BlockBody fields and Block.Signatures; who may reach Store.SetBlock), C02.persist (in core.commit the block is stored again after the application's state hash and receipts were written into it, on every success path). " +
+				"C02.shared (the payload slices of stored and delivered records — block body, frame, event body, root — are never sorted, copied into or element-assigned in place, by anybody: the argument is traced through calls back to the field of an existing record), C02.frozen (writers of BlockBody fields and Block.Signatures; who may reach Store.SetBlock), C02.persist (in core.commit the block is stored again after the application's state hash and receipts were written into it, on every success path). " +
 				"NOT decided: what the store returns after LRU eviction in general (C16), behaviour when the application's commit fails, late-arriving witnesses."},
-		Rules: []ruleFunc{c02single, c02index, c02order, c02once, c02frozen, c02persist},
+		Rules: []ruleFunc{c02single, c02index, c02order, c02once, c02frozen, c02persist, func(p *Prog, r *Report) { sharedSliceRule(p, r, "C02.shared") }},
 	})
 }
 
@@ -427,6 +427,86 @@ func onceRule(p *Prog, r *Report, rule string) {
 			}
 		}
 		r.Check(okDel, rule, "PendingRoundsCache.Clean:deletes-processed", p.pos(cl.Pos()), fnName(cl), "every processed round is deleted from the pending map", "Clean does not delete each processed round from items")
+	}
+}
+
+// sharedSliceRule: the payload slices of stored / delivered records (block body, frame, event body)
+// are shared by reference between the store, the application callback, the HTTP service and the
+// gossip encoder. Nobody reorders or overwrites them in place: no sort.* call, element store or
+// copy() whose destination IS — through any chain of calls — one of those slices of an existing
+// record.
+func sharedSliceRule(p *Prog, r *Report, rule string) {
+	r.Rule(rule, 1, "payload slices of stored records (block body, frame, event body, root) are never sorted / overwritten in place")
+	var fields []*types.Var
+	for _, f := range [][3]string{
+		{HG, "BlockBody", "Transactions"}, {HG, "BlockBody", "InternalTransactions"}, {HG, "BlockBody", "InternalTransactionReceipts"},
+		{HG, "Frame", "Events"}, {HG, "Frame", "Peers"}, {HG, "Root", "Events"},
+		{HG, "EventBody", "Transactions"}, {HG, "EventBody", "InternalTransactions"}, {HG, "EventBody", "BlockSignatures"}, {HG, "EventBody", "Parents"},
+	} {
+		if fv := p.Field(f[0], f[1], f[2]); fv != nil {
+			fields = append(fields, fv)
+		} else {
+			r.Anchor(rule, f[1]+"."+f[2])
+		}
+	}
+	isShared := func(x ssa.Value) (string, bool) {
+		fv, base := fieldOf(x)
+		if fv == nil || isFreshBase(base) {
+			return "", false
+		}
+		for _, f := range fields {
+			if f == fv {
+				if xi, ok := x.(ssa.Instruction); ok {
+					return fv.Name() + " loaded in " + fnName(xi.Parent()) + "@" + p.ipos(xi), true
+				}
+				return fv.Name(), true
+			}
+		}
+		return "", false
+	}
+	n := 0
+	check := func(fn *ssa.Function, at ssa.Instruction, dst ssa.Value, what string) {
+		n++
+		hit := ""
+		flowsFrom(dst, func(x ssa.Value) bool {
+			if h, ok := isShared(x); ok {
+				hit = h
+				return true
+			}
+			return false
+		})
+		r.Check(hit == "", rule, fn.Name()+":"+what, p.ipos(at), fnName(fn), "works on its own slice",
+			what+" on a payload slice of an existing record ("+hit+"): the record held by the store / already delivered to the application changes under its holders, and its hash no longer matches its content")
+	}
+	for _, fn := range p.Mod {
+		if strings.HasSuffix(fn.Name(), "Unmarshal") {
+			continue
+		}
+		for _, b := range fn.Blocks {
+			for _, in := range b.Instrs {
+				switch x := in.(type) {
+				case ssa.CallInstruction:
+					if f := calleeFunc(x.Common()); f != nil && f.Pkg() != nil && f.Pkg().Path() == "sort" && len(x.Common().Args) > 0 {
+						switch f.Name() {
+						case "Sort", "Stable", "Slice", "SliceStable", "Strings", "Ints":
+							check(fn, in, x.Common().Args[0], "sort")
+						}
+					}
+					if bi, isB := x.Common().Value.(*ssa.Builtin); isB && bi.Name() == "copy" && len(x.Common().Args) == 2 {
+						check(fn, in, x.Common().Args[0], "copy-into")
+					}
+				case *ssa.Store:
+					if ia, ok := x.Addr.(*ssa.IndexAddr); ok {
+						if _, isSlice := ia.X.Type().Underlying().(*types.Slice); isSlice {
+							check(fn, in, ia.X, "element-store")
+						}
+					}
+				}
+			}
+		}
+	}
+	if n == 0 {
+		r.Fail(rule, "sites", "-", "", "no sort / copy / element store found at all")
 	}
 }
 
